@@ -68,8 +68,7 @@ def run_robust(binary, lines, timeout=900, env=None):
     def run_chunk(idx):
         p = vf.run_lines(binary, [lines[i] for i in idx], timeout=timeout, env=env)
         o = p.stdout.split('\n')
-        if o and o[-1] == '':
-            o = o[:-1]
+        o = o[:-1]          # the last element is '' after a complete line, or a PARTIAL line when the process was killed
         return p, o
 
     def solve(idx):
